@@ -291,16 +291,16 @@ const c11Period = 10 * time.Second
 
 func TestC11Exhaustive(t *testing.T) {
 	rec := evid.For("C11")
-	depth := 4
+	depth := 5
 	if thorough() {
-		depth = 5
+		depth = 6
 	}
 	e := henv.NewL1(henv.L1Options{NoHook: true})
 	prop, chal := henv.MakeUser("c11-prop"), henv.MakeUser("c11-chal")
 	if r := e.Deliver(ophosttypes.NewMsgCreateBridge(prop.Str, henv.DefaultBridgeConfig(prop.Str, chal.Str, c11Period))); !r.OK() {
 		t.Fatal(r.Err)
 	}
-	count := 0
+	count, firstOp := 0, 0
 	var dfs func(ctx sdk.Context, model []c11Out, path []c11Op, d int)
 	check := func(ctx sdk.Context, model []c11Out, path []c11Op) {
 		e2 := *e
@@ -337,7 +337,10 @@ func TestC11Exhaustive(t *testing.T) {
 			return
 		}
 		for oi, op := range c11Alphabet {
-			if d == 0 && !enumShard(oi) {
+			if d == 0 {
+				firstOp = oi
+			}
+			if d == 1 && !enumShard(firstOp*len(c11Alphabet)+oi) {
 				continue
 			}
 			npath := append(append([]c11Op{}, path...), op)
